@@ -7,7 +7,10 @@ package io
 // (thorough: 5, sampled) out of add/replace/remove over 6 names is run; after every step
 // Links, ForEachLink, EnumLinksAsync and Find must equal a map model, removal of a missing
 // name must report os.ErrNotExist, and the directory reloaded from GetNode must list the
-// same entries.
+// same entries. A second pass runs the reloaded HAMT kinds over three or four names - two share a slot
+// of the root shard, the others lie between that slot and the slots the two have one level down -
+// so that removals collapse child shards next to other entries; the "reloaded" kinds continue on a
+// freshly loaded copy whose child shards have not been read yet.
 
 import (
 	"context"
@@ -25,158 +28,277 @@ import (
 
 func TestVerifBoundedC15DirModel(t *testing.T) {
 	ctx := context.Background()
-	names := []string{"a", "b", "a-rather-long-entry-name-to-cross-the-small-threshold-quickly-1", "a-rather-long-entry-name-to-cross-the-small-threshold-quickly-2", "c", "ü"}
 	type op struct {
 		kind string
 		name string
 		val  int
 	}
-	var ops []op
-	for _, n := range names {
-		ops = append(ops, op{"add", n, 0}, op{"add", n, 1}, op{"rm", n, 0})
+	// second pass: three names that share a slot of the root shard (width 8) and one that does
+	// not, so that removals collapse child shards while sibling entries are still unloaded
+	slotOf := func(name string) string {
+		ds := mdtest.Mock()
+		d, err := NewHAMTDirectory(ds, 0, WithMaxHAMTFanout(8))
+		if err != nil {
+			t.Fatal(err)
+		}
+		if err := d.AddChild(ctx, name, ft.EmptyDirNode()); err != nil {
+			t.Fatal(err)
+		}
+		nd, err := d.GetNode()
+		if err != nil || len(nd.Links()) != 1 {
+			t.Fatalf("probe %q: %v", name, err)
+		}
+		return nd.Links()[0].Name[:len(nd.Links()[0].Name)-len(name)]
 	}
-	seqLen, stride := 4, 19
-	if os.Getenv("VERIF_TIER") == "thorough" {
-		seqLen, stride = 5, 23
-	}
-	total := 1
-	for i := 0; i < seqLen; i++ {
-		total *= len(ops)
-	}
-	kinds := []string{"basic", "hamt8", "hamt256", "dynamic", "hamt8-reloaded", "dynamic-reloaded"}
-	cases, fails := 0, 0
-	for _, kind := range kinds {
-		for idx := 0; idx < total; idx += stride {
-			cases++
+	bySlot := map[string][]string{}
+	var colliding []string
+	for i := 0; i < 600 && colliding == nil; i++ {
+		n := fmt.Sprintf("n%d", i)
+		sl := slotOf(n)
+		bySlot[sl] = append(bySlot[sl], n)
+		for _, m := range bySlot[sl][:len(bySlot[sl])-1] {
+			// second-level slots of the pair: read them off the child shard
 			ds := mdtest.Mock()
-			vals := []ipld.Node{ft.EmptyDirNode(), mdag.NodeWithData(ft.FilePBData([]byte("x"), 1))}
-			for _, v := range vals {
-				if err := ds.Add(ctx, v); err != nil {
-					t.Fatal(err)
-				}
-			}
-			var dir Directory
-			var err error
-			switch kind {
-			case "basic":
-				dir, err = NewBasicDirectory(ds)
-			case "hamt8", "hamt8-reloaded":
-				dir, err = NewHAMTDirectory(ds, 0, WithMaxHAMTFanout(8))
-			case "hamt256":
-				dir, err = NewHAMTDirectory(ds, 0, WithMaxHAMTFanout(256))
-			case "dynamic", "dynamic-reloaded":
-				dir, err = NewDirectory(ds, WithMaxHAMTFanout(8))
-				if err == nil {
-					dir.(*DynamicDirectory).Directory.(*BasicDirectory).SetHAMTShardingSize(150)
-				}
-			}
+			d, err := NewHAMTDirectory(ds, 0, WithMaxHAMTFanout(8))
 			if err != nil {
 				t.Fatal(err)
 			}
-			model := map[string]int{}
-			var trace []string
-			bad := ""
-			check := func(d Directory, what string) string {
-				want := []string{}
-				for n, v := range model {
-					want = append(want, n+"="+vals[v].Cid().String())
+			for _, x := range []string{m, n} {
+				if err := d.AddChild(ctx, x, ft.EmptyDirNode()); err != nil {
+					t.Fatal(err)
 				}
-				sort.Strings(want)
-				collect := func(ls []*ipld.Link) []string {
-					out := []string{}
-					for _, l := range ls {
-						out = append(out, l.Name+"="+l.Cid.String())
-					}
-					sort.Strings(out)
-					return out
-				}
-				ls, err := d.Links(ctx)
-				if err != nil || fmt.Sprint(collect(ls)) != fmt.Sprint(want) {
-					return fmt.Sprintf("%s: Links() = %v (err %v), model %v", what, collect(ls), err, want)
-				}
-				var fe []*ipld.Link
-				if err := d.ForEachLink(ctx, func(l *ipld.Link) error { fe = append(fe, l); return nil }); err != nil || fmt.Sprint(collect(fe)) != fmt.Sprint(want) {
-					return fmt.Sprintf("%s: ForEachLink = %v (err %v), model %v", what, collect(fe), err, want)
-				}
-				var en []*ipld.Link
-				for r := range d.EnumLinksAsync(ctx) {
-					if r.Err != nil {
-						return what + ": EnumLinksAsync: " + r.Err.Error()
-					}
-					en = append(en, r.Link)
-				}
-				if fmt.Sprint(collect(en)) != fmt.Sprint(want) {
-					return fmt.Sprintf("%s: EnumLinksAsync = %v, model %v", what, collect(en), want)
-				}
-				for _, n := range names {
-					nd, err := d.Find(ctx, n)
-					v, ok := model[n]
-					if ok && (err != nil || !nd.Cid().Equals(vals[v].Cid())) {
-						return fmt.Sprintf("%s: Find(%q) err=%v, model has it", what, n, err)
-					}
-					if !ok && !errors.Is(err, os.ErrNotExist) {
-						return fmt.Sprintf("%s: Find(%q) of a missing name: %v", what, n, err)
-					}
-				}
-				return ""
 			}
-			for i, k := 0, idx; i < seqLen && bad == ""; i++ {
-				o := ops[k%len(ops)]
-				k /= len(ops)
-				trace = append(trace, fmt.Sprintf("%s(%q,%d)", o.kind, o.name, o.val))
-				switch o.kind {
-				case "add":
-					if err := dir.AddChild(ctx, o.name, vals[o.val]); err != nil {
-						bad = fmt.Sprintf("step %d: AddChild: %v", i, err)
-					}
-					model[o.name] = o.val
-				case "rm":
-					err := dir.RemoveChild(ctx, o.name)
-					if _, ok := model[o.name]; ok {
-						if err != nil {
-							bad = fmt.Sprintf("step %d: RemoveChild of an existing name: %v", i, err)
-						}
-					} else if !errors.Is(err, os.ErrNotExist) {
-						bad = fmt.Sprintf("step %d: RemoveChild of a missing name answered %v, want os.ErrNotExist", i, err)
-					}
-					delete(model, o.name)
+			root, err := d.GetNode()
+			if err != nil || len(root.Links()) != 1 {
+				continue
+			}
+			child, err := root.Links()[0].GetNode(ctx, ds)
+			if err != nil || len(child.Links()) != 2 {
+				continue // they collide again one level down
+			}
+			// for each of the two, a name whose root slot lies strictly between the shared root
+			// slot and that name's slot in the child shard, so that a link kept under the wrong
+			// prefix changes the order of the root's links
+			var fillers []string
+			for _, l := range child.Links() {
+				lo, hi := sl, l.Name[:len(sl)]
+				if lo > hi {
+					lo, hi = hi, lo
 				}
-				if bad == "" {
-					bad = check(dir, fmt.Sprintf("step %d", i))
-				}
-				if bad == "" {
-					nd, err := dir.GetNode()
-					if err != nil {
-						bad = "GetNode: " + err.Error()
-					} else if err := ds.Add(ctx, nd); err != nil {
-						bad = err.Error()
-					} else if re, err := NewDirectoryFromNode(ds, nd); err != nil {
-						bad = "reload: " + err.Error()
-					} else {
-						bad = check(re, fmt.Sprintf("step %d after reload", i))
-						if kind == "hamt8-reloaded" || kind == "dynamic-reloaded" {
-							// keep working on the directory as loaded from its root node
-							if dd, ok := re.(*DynamicDirectory); ok && kind == "dynamic-reloaded" {
-								if b, ok := dd.Directory.(*BasicDirectory); ok {
-									b.SetHAMTShardingSize(150)
-								} else if hd, ok := dd.Directory.(*HAMTDirectory); ok {
-									hd.SetHAMTShardingSize(150)
-								}
-							}
-							dir = re
-						}
+				for other, ns := range bySlot {
+					if other > lo && other < hi {
+						fillers = append(fillers, ns[0])
+						break
 					}
 				}
 			}
-			if bad != "" {
-				fails++
-				if fails <= 10 {
-					fmt.Printf("VERIF-FAIL C15 %s %v: %s\n", kind, trace, bad)
+			if len(fillers) == 2 && colliding == nil {
+				colliding = []string{m, n, fillers[0]}
+				if fillers[1] != fillers[0] {
+					colliding = append(colliding, fillers[1])
 				}
 			}
 		}
 	}
-	fmt.Printf("BOUNDED-STATS {\"cases\":%d,\"failures\":%d,\"bound\":\"6 directory kinds, %d operations, sequences of length %d (every %d-th)\"}\n", cases, fails, len(ops), seqLen, stride)
+	if colliding == nil {
+		t.Fatal("no colliding names found")
+	}
+	type pass struct {
+		names  []string
+		kinds  []string
+		twoVal bool
+		seqLen int
+		stride int
+	}
+	passes := []pass{
+		{[]string{"a", "b", "a-rather-long-entry-name-to-cross-the-small-threshold-quickly-1", "a-rather-long-entry-name-to-cross-the-small-threshold-quickly-2", "c", "ü"},
+			[]string{"basic", "hamt8", "hamt256", "dynamic", "hamt8-reloaded", "dynamic-reloaded"}, true, 4, 19},
+		{colliding, []string{"hamt8-reloaded", "dynamic-reloaded"}, false, 4, 1},
+	}
+	if os.Getenv("VERIF_TIER") == "thorough" {
+		passes[0].seqLen, passes[0].stride = 5, 23
+		passes[1].seqLen, passes[1].stride = 5, 1
+	}
+	cases, fails := 0, 0
+	nops := 0
+	for _, ps := range passes {
+		names, kinds, seqLen, stride := ps.names, ps.kinds, ps.seqLen, ps.stride
+		var ops []op
+		for _, n := range names {
+			ops = append(ops, op{"add", n, 0}, op{"rm", n, 0})
+			if ps.twoVal {
+				ops = append(ops, op{"add", n, 1})
+			}
+		}
+		nops += len(ops)
+		total := 1
+		for i := 0; i < seqLen; i++ {
+			total *= len(ops)
+		}
+		for _, kind := range kinds {
+			for idx := 0; idx < total; idx += stride {
+				cases++
+				ds := mdtest.Mock()
+				vals := []ipld.Node{ft.EmptyDirNode(), mdag.NodeWithData(ft.FilePBData([]byte("x"), 1))}
+				for _, v := range vals {
+					if err := ds.Add(ctx, v); err != nil {
+						t.Fatal(err)
+					}
+				}
+				var dir Directory
+				var err error
+				switch kind {
+				case "basic":
+					dir, err = NewBasicDirectory(ds)
+				case "hamt8", "hamt8-reloaded":
+					dir, err = NewHAMTDirectory(ds, 0, WithMaxHAMTFanout(8))
+				case "hamt256":
+					dir, err = NewHAMTDirectory(ds, 0, WithMaxHAMTFanout(256))
+				case "dynamic", "dynamic-reloaded":
+					dir, err = NewDirectory(ds, WithMaxHAMTFanout(8))
+					if err == nil {
+						dir.(*DynamicDirectory).Directory.(*BasicDirectory).SetHAMTShardingSize(150)
+					}
+				}
+				if err != nil {
+					t.Fatal(err)
+				}
+				model := map[string]int{}
+				var trace []string
+				bad := ""
+				check := func(d Directory, what string) string {
+					want := []string{}
+					for n, v := range model {
+						want = append(want, n+"="+vals[v].Cid().String())
+					}
+					sort.Strings(want)
+					collect := func(ls []*ipld.Link) []string {
+						out := []string{}
+						for _, l := range ls {
+							out = append(out, l.Name+"="+l.Cid.String())
+						}
+						sort.Strings(out)
+						return out
+					}
+					ls, err := d.Links(ctx)
+					if err != nil || fmt.Sprint(collect(ls)) != fmt.Sprint(want) {
+						return fmt.Sprintf("%s: Links() = %v (err %v), model %v", what, collect(ls), err, want)
+					}
+					var fe []*ipld.Link
+					if err := d.ForEachLink(ctx, func(l *ipld.Link) error { fe = append(fe, l); return nil }); err != nil || fmt.Sprint(collect(fe)) != fmt.Sprint(want) {
+						return fmt.Sprintf("%s: ForEachLink = %v (err %v), model %v", what, collect(fe), err, want)
+					}
+					var en []*ipld.Link
+					for r := range d.EnumLinksAsync(ctx) {
+						if r.Err != nil {
+							return what + ": EnumLinksAsync: " + r.Err.Error()
+						}
+						en = append(en, r.Link)
+					}
+					if fmt.Sprint(collect(en)) != fmt.Sprint(want) {
+						return fmt.Sprintf("%s: EnumLinksAsync = %v, model %v", what, collect(en), want)
+					}
+					for _, n := range names {
+						nd, err := d.Find(ctx, n)
+						v, ok := model[n]
+						if ok && (err != nil || !nd.Cid().Equals(vals[v].Cid())) {
+							return fmt.Sprintf("%s: Find(%q) err=%v, model has it", what, n, err)
+						}
+						if !ok && !errors.Is(err, os.ErrNotExist) {
+							return fmt.Sprintf("%s: Find(%q) of a missing name: %v", what, n, err)
+						}
+					}
+					return ""
+				}
+				for i, k := 0, idx; i < seqLen && bad == ""; i++ {
+					o := ops[k%len(ops)]
+					k /= len(ops)
+					trace = append(trace, fmt.Sprintf("%s(%q,%d)", o.kind, o.name, o.val))
+					switch o.kind {
+					case "add":
+						if err := dir.AddChild(ctx, o.name, vals[o.val]); err != nil {
+							bad = fmt.Sprintf("step %d: AddChild: %v", i, err)
+						}
+						model[o.name] = o.val
+					case "rm":
+						err := dir.RemoveChild(ctx, o.name)
+						if _, ok := model[o.name]; ok {
+							if err != nil {
+								bad = fmt.Sprintf("step %d: RemoveChild of an existing name: %v", i, err)
+							}
+						} else if !errors.Is(err, os.ErrNotExist) {
+							bad = fmt.Sprintf("step %d: RemoveChild of a missing name answered %v, want os.ErrNotExist", i, err)
+						}
+						delete(model, o.name)
+					}
+					// serialize first: the comparison below reads every entry and thereby loads
+					// every child shard, and the node must also be right when it is written
+					// with children that have never been read
+					var early ipld.Node
+					if bad == "" {
+						var err error
+						if early, err = dir.GetNode(); err != nil {
+							bad = "GetNode: " + err.Error()
+						}
+					}
+					if bad == "" {
+						bad = check(dir, fmt.Sprintf("step %d", i))
+					}
+					if bad == "" {
+						nd, err := early, error(nil)
+						if err != nil {
+							bad = "GetNode: " + err.Error()
+						} else if err := ds.Add(ctx, nd); err != nil {
+							bad = err.Error()
+						} else if re, err := NewDirectoryFromNode(ds, nd); err != nil {
+							bad = "reload: " + err.Error()
+						} else {
+							bad = check(re, fmt.Sprintf("step %d after reload", i))
+							if kind == "hamt8-reloaded" || kind == "dynamic-reloaded" {
+								// keep working on the directory as loaded from its root node
+								if dd, ok := re.(*DynamicDirectory); ok && kind == "dynamic-reloaded" {
+									if b, ok := dd.Directory.(*BasicDirectory); ok {
+										b.SetHAMTShardingSize(150)
+									} else if hd, ok := dd.Directory.(*HAMTDirectory); ok {
+										hd.SetHAMTShardingSize(150)
+									}
+								}
+								// (a second, untouched copy: the comparison above has loaded every
+								// shard of `re`, the next edit must meet unloaded children)
+								re2, err := NewDirectoryFromNode(ds, nd)
+								if kind == "hamt8-reloaded" {
+									// stay a pure HAMT (the automatically switching wrapper would turn a
+									// small directory into a basic one at the first removal)
+									if _, isBasic := re2.(*DynamicDirectory).Directory.(*BasicDirectory); !isBasic {
+										re2, err = NewHAMTDirectoryFromNode(ds, nd)
+									}
+								}
+								if err != nil {
+									bad = "reload: " + err.Error()
+								} else {
+									if dd, ok := re2.(*DynamicDirectory); ok && kind == "dynamic-reloaded" {
+										if b, ok := dd.Directory.(*BasicDirectory); ok {
+											b.SetHAMTShardingSize(150)
+										} else if hd, ok := dd.Directory.(*HAMTDirectory); ok {
+											hd.SetHAMTShardingSize(150)
+										}
+									}
+									dir = re2
+								}
+							}
+						}
+					}
+				}
+				if bad != "" {
+					fails++
+					if fails <= 10 {
+						fmt.Printf("VERIF-FAIL C15 %s %v: %s\n", kind, trace, bad)
+					}
+				}
+			}
+		}
+	}
+	fmt.Printf("BOUNDED-STATS {\"cases\":%d,\"failures\":%d,\"bound\":\"6 directory kinds over 6 names (sequences of %d, every %d-th) and 2 reloaded HAMT kinds over 3-4 names of which 2 share a root slot (all sequences of %d), %d operations in all\"}\n", cases, fails, passes[0].seqLen, passes[0].stride, passes[1].seqLen, nops)
 	if fails > 0 {
 		t.Fail()
 	}
